@@ -23,19 +23,21 @@ Lemma forced_eq_now_agrees :
   xspec_run KSet 0 forced_ops = [XABool true; XAOptRows (Some [[1; 1]%N]); XACmp (PSome Eq); XABool true].
 Proof. split; vm_compute; reflexivity. Qed.
 
-(* an emptied child stays in the children map and counts as content *)
+(* FORMER FINDING, fixed in /repo by c041ccb5709: an emptied child (get_mut + drain, COLT get)
+   stayed in GhtInner::children and counted as content -- on [empty_child_ops] the model answered
+   partial_cmp = Greater, == false, merge changed = true where Equal / true / false are
+   specified (former theorem C08_empty_child_refuted).  The history is
+   corpus/C08/empty_child_cmp.json (run first on every check); with the fixed code transcribed
+   (has_rows), model and specification agree: *)
 Definition empty_child_ops : list xop :=
   [XInsert false [1; 10]; XChildDrain false 1; XIter false; XIsBot false; XCmp false; XEq false;
    XMerge true]%N.
-Lemma empty_child_refuted :
-  exists ops, ops = empty_child_ops /\
-    xmodel_run KSet 2 1 ops =
-      [XABool true; XAOptRows (Some [[1; 10]%N]); XARows []; XABool true; XACmp (PSome Gt);
-       XABool false; XABool true] /\
-    xspec_run KSet 1 ops =
-      [XABool true; XAOptRows (Some [[1; 10]%N]); XARows []; XABool true; XACmp (PSome Eq);
-       XABool true; XABool false].
-Proof. exists empty_child_ops. repeat split; vm_compute; reflexivity. Qed.
+Lemma empty_child_now_agrees :
+  xmodel_run KSet 2 1 empty_child_ops = xspec_run KSet 1 empty_child_ops /\
+  xspec_run KSet 1 empty_child_ops =
+    [XABool true; XAOptRows (Some [[1; 10]%N]); XARows []; XABool true; XACmp (PSome Eq);
+     XABool true; XABool false].
+Proof. split; vm_compute; reflexivity. Qed.
 
 (* ------------------------------------------------------------------ leaves: lifting PVC's refinement *)
 Section Multiset.
@@ -208,7 +210,7 @@ Section Multiset.
                       match scget ca (fst kv) with
                       | Some c => let '(c', chg) := smerge h c (snd kv) in
                                   (screplace ca (fst kv) c', changed || chg)
-                      | None => (ca ++ [kv], true)
+                      | None => (ca ++ [kv], changed || shas_rows h (snd kv))
                       end).
       assert (L : forall rest cur chg, Forall (fun kc => good h (snd kc)) cur ->
                     Forall (fun kc => good h (snd kc)) rest ->
@@ -221,7 +223,7 @@ Section Multiset.
           assert (Estep : stepf (cur, chg) (key, v) =
                           match scget cur key with
                           | Some c => let '(c', g) := smerge h c v in (screplace cur key c', chg || g)
-                          | None => (cur ++ [(key, v)], true)
+                          | None => (cur ++ [(key, v)], chg || shas_rows h v)
                           end) by reflexivity.
           rewrite Estep. clear Estep. destruct (scget cur key) as [c|] eqn:G.
           + pose proof (@scget_good h cur key c Gc G) as Gcc. destruct (IH c v Gcc Gv) as [G' C'].
@@ -231,7 +233,7 @@ Section Multiset.
             split; [exact G2|]. intros x. rewrite C2.
             pose proof (@screplace_cnt h cur key c c' x G) as Q. rewrite C' in Q.
             rewrite srows_cons, cnt_app. lia.
-          + destruct (IHr (cur ++ [(key, v)]) true) as [G2 C2];
+          + destruct (IHr (cur ++ [(key, v)]) (chg || shas_rows h v)) as [G2 C2];
               [apply Forall_app; split; [assumption|repeat constructor; assumption]|assumption|].
             split; [exact G2|]. intros x. rewrite C2, srows_app, srows_one, srows_cons, !cnt_app. lia. }
       destruct (L cb ca false Gt Gu) as [G' C'].
